@@ -160,6 +160,29 @@ impl Fiber {
     &self.frames
   }
 
+  /// Values on the stack above the current frame's base
+  #[cfg(feature = "verif")]
+  pub fn verif_depth(&self) -> usize {
+    unsafe { self.stack_top.offset_from(self.frame().stack_start()) as usize }
+  }
+
+  /// The one based index of the current frame
+  #[cfg(feature = "verif")]
+  pub fn verif_frame_depth(&self) -> usize {
+    unsafe { (self.frame as *const CallFrame).offset_from(self.frames.as_ptr()) as usize + 1 }
+  }
+
+  /// The number of live exception handlers belonging to the current frame
+  #[cfg(feature = "verif")]
+  pub fn verif_handlers_in_frame(&self) -> usize {
+    let depth = self.verif_frame_depth();
+    self
+      .exception_handlers
+      .iter()
+      .filter(|handler| handler.call_frame_depth() == depth)
+      .count()
+  }
+
   pub fn scan_roots(&mut self) {
     for value in self.stack.iter_mut() {
       fn compact_slice(slice: &mut [Value]) {
